@@ -32,8 +32,8 @@ ASSUMPTIONS = [
 ]
 EXHAUSTIVE = {"quick": False, "thorough": False}
 PLAN = {"quick": dict(unions=2600, inputs=36), "thorough": dict(unions=60000, inputs=70)}
-FLOORS = {"quick": {"named_union_members": 500, "single_member_optionals": 30, "unmarshal_compared": 70000, "marshal_compared": 40000, "none_honoured": 2000, "all_reject_valueerror": 8000, "orders": 2000},
-          "thorough": {"named_union_members": 12000, "single_member_optionals": 30, "unmarshal_compared": 3000000, "marshal_compared": 1500000, "none_honoured": 60000, "all_reject_valueerror": 300000, "orders": 30000}}
+FLOORS = {"quick": {"subclass_members": 150, "named_union_members": 500, "single_member_optionals": 30, "unmarshal_compared": 70000, "marshal_compared": 40000, "none_honoured": 2000, "all_reject_valueerror": 8000, "orders": 2000},
+          "thorough": {"subclass_members": 3000, "named_union_members": 12000, "single_member_optionals": 30, "unmarshal_compared": 3000000, "marshal_compared": 1500000, "none_honoured": 60000, "all_reject_valueerror": 300000, "orders": 30000}}
 
 MOD = "vunion_pool"
 SRC = """
@@ -53,8 +53,13 @@ NTU = typing.NewType("NTU", typing.Union[int, datetime.date])
 AlU = typing.TypeAliasType("AlU", float | uuid.UUID)
 MaybeInt = typing.TypeAliasType("MaybeInt", typing.Optional[int])
 NTS = typing.NewType("NTS", typing.Union[bool, str])
+# a class declared next to (possibly after) its own base: still a member of its own, tried at its position
+@dataclasses.dataclass
+class DCChild(DC):
+    a: str = "child"
 """
 NAMED_UNIONS = ["NTU", "AlU", "MaybeInt", "NTS"]
+SUBCLASS_OF = {"int": ("bool", bool), "DC": ("DCChild", None)}
 
 
 def pool():
@@ -67,6 +72,7 @@ def pool():
         "int": int, "str": str, "float": float, "Decimal": decimal.Decimal, "date": datetime.date, "datetime": datetime.datetime,
         "UUID": uuid.UUID, "list[int]": list[int], "dict[str,int]": dict[str, int], "DC": m.DC, "Col": m.Col, "Lit2": m.Lit2,
         **{n: getattr(m, n) for n in NAMED_UNIONS},
+        "bool": bool, "DCChild": m.DCChild,
     }, m
 
 
@@ -74,7 +80,7 @@ def member_values(m):
     UTC = datetime.timezone.utc
     return [0, 1, -5, 10**25, "", "a", "1", "1.5", "abc", "null", "x", "red", 1.5, -0.0, 2.0, decimal.Decimal("1.50"), decimal.Decimal("7"),
             datetime.date(2020, 1, 2), datetime.datetime(2020, 1, 2, 3, 4, 5, tzinfo=UTC), uuid.UUID(int=7), [1, 2], [], ["1", "2"], {"a": 1}, {},
-            {"a": "1"}, m.DC(1, "z"), {"a": 1, "b": "q"}, {"a": "5"}, m.Col.red, m.Col.one, "2020-01-02", "2020-01-02T03:04:05+00:00",
+            {"a": "1"}, m.DC(1, "z"), {"a": 1, "b": "q"}, {"a": "5"}, m.DCChild("z"), {"a": "x"}, "true", "yes", "on", m.Col.red, m.Col.one, "2020-01-02", "2020-01-02T03:04:05+00:00",
             "00000000-0000-0000-0000-000000000007", 2, True, False, None, b"1", b"abc", "[1, 2]", '{"a": 1}', (1, 2), {"b": "only"}, 7.0, "7"]
 
 
@@ -149,7 +155,7 @@ def names_for(sh, i, rng, names):
 def run_shard(sh):
     plan = PLAN[sh.tier]
     P, mod = pool()
-    names = [n for n in P if n not in NAMED_UNIONS]
+    names = [n for n in P if n not in NAMED_UNIONS and n not in ("bool", "DCChild")]
     import random
 
     # deterministic global enumeration, sharded round-robin
@@ -182,6 +188,13 @@ def run_shard(sh):
             j = rng.randrange(len(tup))
             tup = tup[:j] + (rng.choice(NAMED_UNIONS),) + tup[j + 1:]
             sh.count("named_union_members")
+        for base_name, (sub_name, _) in SUBCLASS_OF.items():
+            if base_name in tup and len(tup) >= 2 and rng.random() < 0.4:
+                # a subclass of another member (bool next to int, a dataclass next to its base), before or after it
+                others = [j for j, n_ in enumerate(tup) if n_ != base_name]
+                j = rng.choice(others)
+                tup = tup[:j] + (sub_name,) + tup[j + 1:]
+                sh.count("subclass_members")
         none_pos = rng.choice([None, None] + list(range(len(tup) + 1)))
         if len(tup) == 1:
             none_pos = rng.choice([0, 1])
